@@ -168,7 +168,7 @@ pub fn run(rep: &mut Report, cfg: &Cfg, group: Group, check: &'static str) {
     let s16small = strat16(&mut cfg.rng("strat16"), 96);
     let s32 = strat32(&mut cfg.rng("strat32"), if cfg.tier_thorough { 320 } else { 160 });
     let frng = &mut cfg.rng("fields");
-    let wide16: usize = if std::env::var("VERIF_EXHAUSTIVE16").is_ok() { 65536 } else { 192 };
+    let wide16: usize = if std::env::var("VERIF_EXHAUSTIVE16").is_ok() { 65536 } else { 256 };
 
     for pat in &forms {
         let probe = decode_words(&fill(pat, &Fields { s: 1, d: 2, x: 1, trap: 1, ..Default::default() }));
@@ -308,7 +308,7 @@ pub fn run(rep: &mut Report, cfg: &Cfg, group: Group, check: &'static str) {
                     }
                 }
             }
-            let nrand = cfg.share(cfg.n(20_000, 400_000));
+            let nrand = cfg.share(cfg.n(20_000, 3_000_000));
             for _ in 0..nrand {
                 let f = shard_fields(frng);
                 let (a, b, ccr) = (gen::data(&mut r.rng, Sz::L), gen::data(&mut r.rng, Sz::L), r.rng.u8());
